@@ -42,7 +42,7 @@ TLevelsSumToFeed     == Chk("level_sums_to_feed", LevelsSumToFeed)
 TNoKeyLost           == Chk("no_key_lost", NoKeyLost)
 TReportingIsModelled == Chk("reporting_is_modelled", ReportingIsModelled)
 TEligibility         == Chk("eligibility", Eligibility)
-TLevelsAgree         == Chk("levels_agree", LevelsAgree)
+TLevelsAgree         == Chk("levels_agree", Est # "bootstrap" => LevelsAgree)
 TGroupFloors         == Chk("group_floors", GroupFloors)
 
 ---------------------------------------------------------------------------
@@ -73,8 +73,8 @@ ObsGroups ==
               /\ Chk("group_reporting", o.reporting = e.reporting)
 
 (* C02 *)
-ObsPred ==
-  Done => \A l \in Levels : \A k \in 1..Len(tables[l].rows) :
+ObsPred ==   \* vote-count estimands (nonparametric, gaussian); the bootstrap identities are ObsBootstrap
+  (Done /\ Est # "bootstrap") => \A l \in Levels : \A k \in 1..Len(tables[l].rows) :
     (k <= Len(Obs.tables[l]) /\ ObsRow(l, k).key = tables[l].rows[k]) =>
       LET e == tables[l].val[tables[l].rows[k]]
           o == ObsRow(l, k)
@@ -87,18 +87,35 @@ ObsRowOrder ==
     /\ Chk("group_count", Len(Obs.tables[l]) = Len(tables[l].rows))
     /\ \A k \in 1..Len(tables[l].rows) : k <= Len(Obs.tables[l]) => Chk("group_key_order", ObsRow(l, k).key = tables[l].rows[k])
 
+\* bootstrap: group turnout = sum of its units' predicted turnout; margin * turnout = sum of unit margins
+\* (values logged in thousandths, each rounded: slack = number of members + 1)
+Abs(x) == IF x < 0 THEN -x ELSE x
+ObsBootstrap ==
+  (Done /\ Est = "bootstrap") => \A l \in Levels : \A k \in 1..Len(tables[l].rows) :
+    (k <= Len(Obs.tables[l]) /\ ObsRow(l, k).key = tables[l].rows[k]) =>
+      LET e == tables[l].val[tables[l].rows[k]]
+          o == ObsRow(l, k)
+      IN /\ Chk("group_turnout_is_sum", Abs(o.pt - e.ptsum) <= e.nmemb + 1)
+         /\ Chk("group_margin_is_sum", Abs(o.pm - e.pmsum) <= e.nmemb + 1)
+
+\* C09: the outlier models are consulted exactly when enabled
+ObsOutlierCalls ==
+  Done => /\ Chk("turnout_outlier_model_called_iff_enabled", Obs.calledT = EnabledT)
+          /\ Chk("margin_outlier_model_called_iff_enabled", Obs.calledM = EnabledM)
+
 (* C03 *)
 ObsFloors ==
   Done =>
     /\ \A i \in DOMAIN utable :
          LET o == Obs.utable[i] IN
          o.present =>
-           /\ Chk("unit_pred_floor", o.pred >= o.votes)
-           /\ \A a \in 1..NAlpha : Chk("unit_lower_floor", o.lower[a] >= o.votes) /\ Chk("unit_upper_floor", o.upper[a] >= o.votes)
+           /\ (Est # "bootstrap" =>
+                 /\ Chk("unit_pred_floor", o.pred >= o.votes)
+                 /\ \A a \in 1..NAlpha : Chk("unit_lower_floor", o.lower[a] >= o.votes) /\ Chk("unit_upper_floor", o.upper[a] >= o.votes))
            /\ (i \notin fN =>
                  /\ Chk("unit_final_pred", o.pred = o.votes)
                  /\ \A a \in 1..NAlpha : Chk("unit_final_lower", o.lower[a] = o.votes) /\ Chk("unit_final_upper", o.upper[a] = o.votes))
-    /\ \A l \in Levels : \A k \in 1..Len(Obs.tables[l]) :
+    /\ Est # "bootstrap" => \A l \in Levels : \A k \in 1..Len(Obs.tables[l]) :
          LET o == ObsRow(l, k) IN
          /\ Chk("group_pred_floor", o.pred >= o.counted)
          /\ \A a \in 1..NAlpha : Chk("group_lower_floor", o.lower[a] >= o.counted) /\ Chk("group_upper_floor", o.upper[a] >= o.counted)
